@@ -229,7 +229,31 @@ let handlers : (string * (string list -> string -> verdict)) list = [
            | Throttle.Ok (t', ran) ->
              go t' rest (S.concat "+" (L.map (fun n -> string_of_int (int_of_nat n)) ran) :: acc) (total + L.length ran)) in
       let (outs, total) = go t0 (split_on ',' ops) [] 0 in
-      { model = S.concat "," outs ^ " total=" ^ string_of_int total; spec_ok = None; nontrivial = L.length outs > 2 }
+      (* spec on the implementation's own output (C19_throttle_exact / C19_throttle_bound): after every call within the
+         contract the number of starters run so far is min(added, done + limit), and they ran in Add order *)
+      let lim = int_of_string limit in
+      let impl_outs = (match S.index_opt impl ' ' with Some i -> S.sub impl 0 i | None -> impl) in
+      let spec =
+        (try
+          let outs_i = S.split_on_char ',' impl_outs in
+          let ops_l = split_on ',' ops in
+          if L.mem "CRASH" outs_i || L.length outs_i <> L.length ops_l then None else begin
+            let added = ref [] and started = ref [] and ndone = ref 0 and ok = ref true and contract = ref true in
+            L.iter2 (fun o out ->
+              if !contract then begin
+                (if o = "d" then (if !ndone >= L.length !started then contract := false else incr ndone)
+                 else added := !added @ [S.sub o 1 (S.length o - 1)]);
+                if !contract then begin
+                  (if out <> "" then started := !started @ S.split_on_char '+' out);
+                  let want = min (L.length !added) (!ndone + lim) in
+                  if L.length !started <> want then ok := false;
+                  let rec prefix a b = match a, b with [], _ -> true | x :: a', y :: b' -> x = y && prefix a' b' | _ -> false in
+                  if not (prefix !started !added) then ok := false
+                end
+              end) ops_l outs_i;
+            Some !ok end
+        with _ -> None) in
+      { model = S.concat "," outs ^ " total=" ^ string_of_int total; spec_ok = spec; nontrivial = L.length outs > 2 }
     | _ -> failwith "args");
   "can_get", (fun args impl -> match args with
     | [a] ->
